@@ -285,6 +285,7 @@ def run(args, repo, jobs, seed, workdir, outdir):
     viols = []      # (oracle, key, msg, replay_path, profile)
     infra_msgs = []
     wall_cap_hit = False
+    crashes_handled = 0
     for res, (p, start, count) in zip(results, tasks):
         o = res["out"]
         if o and not o.get("harness_err"):
@@ -298,7 +299,11 @@ def run(args, repo, jobs, seed, workdir, outdir):
         if res["rc"] == 4 and o:
             continue  # hang while minimising a violation that is already in the output
         if res["rc"] != 0:
-            # the worker died: panic, race report, watchdog or timeout
+            # the worker died: panic, race report, watchdog or timeout. Every such worker is a violation in itself; only
+            # the first few are classified and confirmed by re-running (a re-run of a hang costs half a minute)
+            crashes_handled += 1
+            if crashes_handled > 3 and any(True for _ in viols):
+                continue
             b = race_binary if p["race"] else binary
             v = handle_crash(prop, p, res, b, workdir, outdir, seed)
             if v is None:
